@@ -481,6 +481,22 @@ pub fn c01_roundtrip(ctx: &Ctx, out: &mut RunOut) -> Result<(), Violation> {
     let (mut m, _cfg) = gen::gen_doc(ctx);
     let cycles = 1 + ctx.draw(W, 3, "cycles") as usize;
     let mut d = sim::to_doc(&m);
+    // a quarter of the cases: the in-memory document comes from loading a file of a foreign producer
+    // (object streams, cross-reference streams, any syntax) instead of being built through the API
+    if ctx.chance(W, 1, 4, "start-from-foreign-file") {
+        use pdfmodel::refwriter::{self, Revision};
+        let revs = vec![Revision { objects: m.objects.clone(), trailer: pdfmodel::trailer_payload(&m.trailer) }];
+        let mut opts = refwriter::draw_opts(ctx, 1, &m.version, &m.binary_mark);
+        opts.raw_cr_eol = false;
+        let wr = refwriter::write_history(ctx, &revs, &opts);
+        d = guarded("load_mem", || sim::load_mem(&wr.bytes))?
+            .map_err(|e| Violation::new("load-failed", format!("load of a reference-writer file: {e}")))?;
+        // what that file defines (C02's business) is the document from here on: integer objects
+        // introduced for indirect lengths belong to it, structural objects are not re-saved
+        m = crate::scen_b::expect_for_lopdf(&wr.expect[0]);
+        m.xref_stream = matches!(d.reference_table.cross_reference_type, lopdf::xref::XrefType::CrossReferenceStream);
+        ctx.count("start-from-foreign-file");
+    }
     let mut h = 0u64;
     for c in 0..cycles {
         if c > 0 && ctx.chance(W, 1, 2, "flip-xref") {
